@@ -1,5 +1,7 @@
 pub mod c04;
 pub mod c05;
+pub mod c14;
+pub mod c16;
 pub mod hist;
 
 use std::collections::BTreeSet;
